@@ -52,17 +52,20 @@ impl<R: Read + Seek> ReadBox<&mut R> for EdtsBox {
 
         let mut edts = EdtsBox::new();
 
-        let header = BoxHeader::read(reader)?;
-        let BoxHeader { name, size: s } = header;
-        if s > size {
-            return Err(Error::InvalidData(
-                "edts box contains a box with a larger size than it",
-            ));
-        }
+        // An empty edts box has no child header to read.
+        if reader.stream_position()? + HEADER_SIZE <= start + size {
+            let header = BoxHeader::read(reader)?;
+            let BoxHeader { name, size: s } = header;
+            if s > size {
+                return Err(Error::InvalidData(
+                    "edts box contains a box with a larger size than it",
+                ));
+            }
 
-        if let BoxType::ElstBox = name {
-            let elst = ElstBox::read_box(reader, s)?;
-            edts.elst = Some(elst);
+            if let BoxType::ElstBox = name {
+                let elst = ElstBox::read_box(reader, s)?;
+                edts.elst = Some(elst);
+            }
         }
 
         skip_bytes_to(reader, start + size)?;
